@@ -281,9 +281,26 @@ func (n namedField) SetValue(opts *options, elem value, v value) Error {
 		sub.c.fields = &fields{}
 	}
 
+	if old, ok := sub.c.fields.get(n.name); ok && old != v {
+		detach(sub.c, old)
+	}
 	sub.c.fields.set(n.name, v)
 	v.SetContext(context{parent: elem, field: n.name})
 	return nil
+}
+
+// detach makes a config that is taken out of parent a root again: its handle
+// must not go on naming parent as the place it lives in (Path, Parent, the
+// cycle check of SetChild). A config that was attached to another parent
+// first still belongs there.
+func detach(parent *Config, old value) {
+	sub, ok := old.(cfgSub)
+	if !ok {
+		return
+	}
+	if p, ok := sub.c.ctx.parent.(cfgSub); ok && p.c.fields == parent.fields {
+		sub.c.ctx = context{}
+	}
 }
 
 func (i idxField) SetValue(opts *options, elem value, v value) Error {
@@ -299,6 +316,9 @@ func (i idxField) SetValue(opts *options, elem value, v value) Error {
 		sub.c.fields = &fields{}
 	}
 
+	if arr := sub.c.fields.array(); i.i < len(arr) && arr[i.i] != nil && arr[i.i] != v {
+		detach(sub.c, arr[i.i])
+	}
 	sub.c.fields.setAt(i.i, elem, v)
 	v.SetContext(context{parent: elem, field: i.String()})
 	return nil
@@ -347,6 +367,9 @@ func (n namedField) Remove(opts *options, elem value) (bool, Error) {
 		return false, raiseExpectedObject(opts, elem)
 	}
 
+	if old, ok := sub.c.fields.get(n.name); ok {
+		detach(sub.c, old)
+	}
 	removed := sub.c.fields.del(n.name)
 	return removed, nil
 }
@@ -357,6 +380,9 @@ func (i idxField) Remove(opts *options, elem value) (bool, Error) {
 		return false, raiseExpectedObject(opts, elem)
 	}
 
+	if arr := sub.c.fields.array(); i.i >= 0 && i.i < len(arr) && arr[i.i] != nil {
+		detach(sub.c, arr[i.i])
+	}
 	removed := sub.c.fields.delAt(i.i)
 	return removed, nil
 }
